@@ -877,9 +877,9 @@ class _KindFactory:
         # WARNING: self.pb may in fact be any subclass of AbstractProblem that has the above mixins.
         # We declare it as a Problem to avoid limitations of the python type system
         self.pb: up.model.Problem = pb
-        # _get_static_and_unused_fluents is only defined on Problem, not on every AbstractProblem
-        # subclass (e.g. SchedulingProblem)
-        if isinstance(pb, up.model.Problem):
+        # _get_static_and_unused_fluents is only defined on Problem and SchedulingProblem, not on
+        # every AbstractProblem subclass
+        if isinstance(pb, (up.model.Problem, up.model.scheduling.SchedulingProblem)):
             (
                 static_fluents,
                 unused_fluents,
